@@ -1,11 +1,12 @@
 (* C02 -- Every occurrence is found exactly once, also across periodic boundaries.
    Proved (all inputs, all rot/pick): no atom group is reported twice; nothing outside the tolerance is reported (= C01_sound).
-   NOT proved (partial): completeness -- that every rotated/translated copy IS reported.  It depends on the floating-point
+   Proved relative to the rotation check: the candidate enumeration is complete and every accepted candidate's group is reported.
+   NOT proved (partial): that the rotation handed to the check is acceptable for every true copy.  It depends on the floating-point
    quaternion construction (arccos, half-angle sines, a random perpendicular axis in the antiparallel case), which enters the
    model only as the parameter `rot`; the check validates it on every run: every planted copy must come back from the real code
    and from the model with the integer construction rot_model. *)
 From Coq Require Import ZArith List Bool Arith.
-From Mofun Require Import Model.Atoms Model.Geom Model.Find Proofs.FindProofs.
+From Mofun Require Import Model.Atoms Model.Geom Model.Find Proofs.FindProofs Proofs.FindComplete.
 Import ListNotations.
 Open Scope Z_scope.
 
@@ -26,6 +27,22 @@ Theorem C02_no_spurious : forall rot pick S cell P tol rtol hints idx pos q,
   qn2 q <> 0 /\ Forall (fun px => atom_close q tol rtol (nth (a1 P hints) pos (0,0,0)) (fst px) (snd px)) (combine (Prel P hints) pos).
 Proof. intros. pose proof (find_sound _ _ _ _ _ _ _ _ _ _ _ H) as [_ [_ [_ [_ [A B]]]]]. split; assumption. Qed.
 Print Assumptions C02_no_spurious.
+
+(* completeness relative to the rotation check.  (1) The candidate enumeration is complete: every tuple made of a home-cell first atom
+   among the near images, further atoms among the images near it, with the pattern's elements position by position and every pairwise
+   distance close to the pattern's, IS a candidate.  (2) Every candidate that the rotation check accepts has its atom group among the
+   reported matches.  What remains outside the theorem is only that `rot` (the float quaternion construction) produces an acceptable
+   rotation for a true occurrence, and that the near window contains the occurrence -- both validated on every planted copy. *)
+Theorem C02_candidates_complete : forall S cell P tol p0 rest g0 x0 ext,
+  P = p0 :: rest -> In (g0, (fst p0, x0)) (near S cell P tol) -> (g0 < length S)%nat ->
+  Forall2 (member_of (nearby S cell P tol x0)) ext rest -> dist_ok P tol 1 ((g0, x0) :: ext) ->
+  In ((g0, x0) :: ext) (cands S cell P tol).
+Proof. exact cands_complete. Qed.
+Print Assumptions C02_candidates_complete.
+Theorem C02_accepted_candidates_are_reported : forall S cell P tol rot pick rtol hints c q,
+  In c (cands S cell P tol) -> accept rot P tol rtol hints c = Some q -> In (key S c) (map okey (find rot pick S cell P tol rtol hints)).
+Proof. exact find_complete. Qed.
+Print Assumptions C02_accepted_candidates_are_reported.
 
 (* non-vacuity: a symmetric square found once although 8 orderings are candidates *)
 Example C02_nonvacuous :
